@@ -23,7 +23,7 @@ ASSUMPTIONS = ['Dataset.project([]) is outside the operation (numpy.histogramdd 
                'counts compared exactly, weighted counts at rtol 1e-12']
 PLAN = {
     'quick': dict(cases=1600, budget_s=60, case_timeout=60, min_cases=300),
-    'thorough': dict(cases=100000, budget_s=900, case_timeout=60, min_cases=20000),
+    'thorough': dict(cases=100000, budget_s=600, case_timeout=60, min_cases=16666),
 }
 
 
